@@ -17,7 +17,8 @@ RULE = ('operation lines from corpus + directed Karatsuba-structured families + 
         'oracle (L0); distinct = distinct lines, non-trivial = some operand token longer than 2 hex digits')
 ASSUMPTIONS = ['forwarding forms (operators, Wrapping, Checked, trait methods) are compared among themselves in the '
                'harness and share one model function',
-               'fixed widths exercised: 1..12, 16, 32, 64, 128 and 18 mixed (lhs, rhs) pairs; boxed 1..=140 limbs']
+               'fixed widths exercised: 1..12, 16, 32, 64, 128 and 18 mixed (lhs, rhs) pairs; boxed 1..=140 limbs',
+               '`c03.hook.*` lines call adc_mul_limbs / karatsuba_mul_limbs / karatsuba_square_limbs on raw limb slices through crypto_bigint::verif_hooks (sizes below the public thresholds, arbitrary accumulators, pre-filled out/scratch)']
 
 EQ_WIDTHS = [1, 2, 3, 4, 5, 6, 7, 8, 9, 10, 11, 12, 16, 32, 64, 128]
 WIDE_SQ = {1, 2, 3, 4, 5, 6, 7, 8, 12, 16, 32, 64, 128}
@@ -213,6 +214,90 @@ def window_ones(n, m):
     return x, y
 
 
+def hook_lines(tier, rng):
+    """`c03.hook.*`: the crate-internal limb-slice routines through crypto_bigint::verif_hooks.
+    adc_mul_limbs on ARBITRARY accumulators (all-ones, all-ones above/below the product, structured, random; lengths 0..,
+      unequal) — the public API only ever passes a zero or a partially filled accumulator;
+    karatsuba_mul_limbs at overlap sizes BELOW the public entry threshold (BoxedUint::mul starts it at min(len) >= 32;
+      the routine itself recurses for even-floored overlaps > 24): 24..=31 one level, 50..=56 two levels, 100..=106 three;
+      odd / unequal lengths with both trailing passes, the all-ones window of the trailing pass, dirty out/scratch buffers;
+    karatsuba_square_limbs below BoxedUint::square's threshold of 64 (recursion for even sizes > 48), odd sizes (fallback)."""
+    quick = tier == 'quick'
+    W = WMAX
+    # ---- adc_mul_limbs
+    shapes = [(0, 0), (0, 3), (3, 0), (1, 1), (1, 2), (2, 1), (2, 2), (3, 3), (1, 8), (8, 1), (4, 7), (7, 4), (5, 5), (8, 8),
+              (13, 12), (24, 24), (25, 24), (1, 33), (33, 1), (16, 40)]
+    if not quick:
+        shapes += [(n, m) for n in range(1, 10) for m in range(1, 10)] + [(31, 33), (48, 49), (64, 64), (2, 100), (100, 3)]
+    for (n, m) in dict.fromkeys(shapes):
+        t = n + m
+        T = 1 << (64 * t)
+        accs = [0, T - 1, (T - 1) ^ ones(m), ones(m), ones(n) << (64 * m) if t else 0, (T - 1) ^ 1, T >> 1 if t else 0]
+        accs += [rng.getrandbits(64 * t) for _ in range(2 if quick else 8)] + [value(rng, t) for _ in range(2 if quick else 8)]
+        xs = [ones(n), value(rng, n), rng.getrandbits(64 * n)] + ([] if quick else [0, 1 % (1 << 64 * n) if n else 0, struct(rng, n, 2), ones(n) - 1 if n else 0])
+        ys = [ones(m), value(rng, m), rng.getrandbits(64 * m)] + ([] if quick else [0, 1 % (1 << 64 * m) if m else 0, struct(rng, m, 2), ones(m) - 1 if m else 0])
+        for acc in dict.fromkeys(a % T for a in accs):
+            for x in dict.fromkeys(xs):
+                for y in dict.fromkeys(ys):
+                    if (quick and t > 20 and rng.randrange(3)) or (not quick and t > 6 and rng.randrange(3)):
+                        continue
+                    yield f"c03.hook.adc_mul_limbs {n} {m} {hx(x)} {hx(y)} {hx(acc)}"
+    # ---- karatsuba_mul_limbs
+    eq = [2, 23, 24, 25, 26, 27, 28, 29, 30, 31, 32, 33, 50, 51, 52, 53, 54, 100, 104, 105]
+    if not quick:
+        eq = sorted(set(eq + list(range(1, 70)) + [55, 56, 98, 99, 101, 102, 103, 106, 128, 129]))
+    for n in eq:
+        cases = [(ones(n), ones(n)), (struct(rng, n, 24, True), struct(rng, n, 24, True)), (value(rng, n), value(rng, n))]
+        if n >= 2:
+            for sx in (-1, 0, 1):
+                for sy in (-1, 1):
+                    if quick and n > 60 and rng.randrange(2):
+                        continue
+                    cases.append(signed_pair(rng, n, 24, sx, sy, True))
+        if not quick:
+            cases += [(struct(rng, n, 24, True), struct(rng, n, 24, True)) for _ in range(4)]
+        for a, b in cases:
+            yield f"c03.hook.kara_mul {n} {n} {hx(a)} {hx(b)} {rng.randrange(2)}"
+    uneq = [(26, 27), (27, 26), (27, 27), (27, 29), (29, 27), (26, 40), (40, 26), (27, 40), (40, 27), (31, 33), (33, 31),
+            (25, 60), (60, 25), (26, 1), (1, 26), (24, 31), (31, 24), (30, 31), (31, 30), (52, 55), (55, 52), (53, 80),
+            (27, 100), (100, 27)]
+    if not quick:
+        uneq += [(n, m) for n in range(24, 34) for m in range(24, 34) if n != m] + \
+                [(rng.randrange(1, 110), rng.randrange(1, 110)) for _ in range(200)]
+    for (n, m) in dict.fromkeys(uneq):
+        for a, b in [(ones(n), ones(m)), (struct(rng, n, 24, True), struct(rng, m, 24, True)), (value(rng, n), value(rng, m))]:
+            yield f"c03.hook.kara_mul {n} {m} {hx(a)} {hx(b)} {rng.randrange(2)}"
+    # all-ones window handed to the trailing adc_mul_limbs pass (odd shorter lhs >= 27, longer rhs), and mirrored
+    for (n, m) in [(27, 28), (27, 29), (29, 31), (31, 40), (27, 60), (53, 55)] + ([] if quick else [(n, n + k) for n in range(27, 64, 2) for k in (1, 2, 3, 17)]):
+        x, y = window_ones(n, m)
+        for a, b in ((x, y), (x - 1, y), (x, y + 1)):
+            yield f"c03.hook.kara_mul {n} {m} {hx(a)} {hx(b)} 0"
+            yield f"c03.hook.kara_mul {m} {n} {hx(b)} {hx(a)} 1"
+    # carry leaving the yt trailing product must ripple through all-ones limbs left by the xt pass (both trailing passes run):
+    # lhs = ones(s) ++ [1]*k, rhs = zeros(s) ++ [MAX]*j  (even s > 24), and mirrored
+    for sz in ([26, 28, 52] if quick else range(26, 64, 2)):
+        for k, j in ((2, 1), (3, 1), (3, 2), (5, 3)):
+            a = ones(sz) | (sum(1 << (64 * i) for i in range(k)) << (64 * sz))
+            b = ones(j) << (64 * sz)
+            yield f"c03.hook.kara_mul {sz + k} {sz + j} {hx(a)} {hx(b)} 0"
+            yield f"c03.hook.kara_mul {sz + j} {sz + k} {hx(b)} {hx(a)} 1"
+    # ---- karatsuba_square_limbs
+    sq = [1, 2, 47, 48, 49, 50, 51, 52, 54, 56, 58, 60, 62, 63, 64, 98, 100, 102, 104]
+    if not quick:
+        sq = sorted(set(sq + list(range(1, 70)) + [96, 97, 99, 101, 103, 128, 130]))
+    for n in sq:
+        vals = [ones(n), struct(rng, n, 48, False), struct(rng, n, 24, True), value(rng, n), 1 << rng.randrange(64 * n)]
+        if n >= 2:
+            h = n // 2
+            lo, hi = rng.getrandbits(64 * h), rng.getrandbits(64 * h)
+            lo, hi = min(lo, hi), max(lo, hi)
+            vals += [lo | (hi << (64 * h)), hi | (lo << (64 * h)), lo | (lo << (64 * h))]     # x0 < x1, x0 > x1, x0 = x1
+        if not quick:
+            vals += [struct(rng, n, 48, False) for _ in range(4)]
+        for a in dict.fromkeys(vals):
+            yield f"c03.hook.kara_square {n} {hx(a)} {rng.randrange(2)}"
+
+
 def gen(tier, rng):
     quick = tier == 'quick'
     # ---- Limb ops
@@ -343,6 +428,10 @@ def gen(tier, rng):
         yield f"c03.b.mul {m} {n} {hx(y)} {hx(x)}"
         yield f"c03.b.mul {n} {m} {hx(x - 1)} {hx(y)}"
         yield f"c03.b.mul {n} {m} {hx(x)} {hx(y + 1)}"
+
+    # ---- crate-internal routines through crypto_bigint::verif_hooks (emitted last from their own PRNG stream: the
+    #      public lines above are the same as before the hooks existed)
+    yield from hook_lines(tier, random.Random(rng.getrandbits(32)))
 
 
 def nontrivial(line):
